@@ -70,7 +70,7 @@ func main() {
 		if *prop != "" && !contains(c.props, *prop) {
 			continue
 		}
-		if c.mode == "assumed" || contains(c.props, "CANARY") {
+		if c.mode == "assumed" || c.mode == "bounded" || contains(c.props, "CANARY") {
 			continue
 		}
 		units = append(units, eng.newUnit(c))
